@@ -11,7 +11,7 @@ Inductive scase :=
 | SRead (req ann count fsize off rtype rsize : N) (err : bool) (rcount asked : option N)
 | SXRead (req ann count off vlen rtype rsize : N) (err : bool) (rcount : option N)
 | SReaddir (req ann count : N) (sizes : list N) (rtype rsize : N) (err : bool) (rcount : option N)
-| SClient (req announce : N) (result : N)        (* 0 ok, 1 ErrMessageTooLarge, 2 other refusal *)
+| SClient (req announce : N) (result : N)        (* 0 ok, 1 ErrMessageTooLarge, 2 other refusal, 3 the client stopped answering (watchdog) *)
           (msize payload : N)
           (op : N)                               (* 0 WriteAt, 1 ReadAt, 2 Readdir, 3 GetXattr *)
           (n avail : N)
@@ -94,7 +94,7 @@ Definition property_holds (c : scase) : bool :=
   | SXRead _ ann _ _ _ _ rsize err _ => negb err && (rsize <=? ann)
   | SReaddir _ ann _ _ _ rsize err _ => negb err && (rsize <=? ann)
   | SClient req announce result _ _ _ _ _ frames allsizes _ =>
-      if result =? 0 then
+      if (result =? 0) || (result =? 3) then
         forallb (fun sz => sz <=? announce) allsizes &&
         forallb (fun '(ty, sz, cnt) =>
                    (sz <=? announce) &&
